@@ -432,7 +432,8 @@ def gen_progress():
             "def Shape.faithful (k : Shape) : Bool :=", "  " + " && ".join(f"k.{n}" for n in names), "",
             "end Uberjob.Gen.Progress", ""]
     src_hash = _h("".join(_dump(t) for t in [tree] + others))
-    return "\n".join(out), {"flags": flags, "source_hash": src_hash}
+    return "\n".join(out), {"flags": flags, "source_hash": src_hash,
+                            "sort_has_fallback": "def sortHasFallback : Bool := true" in "\n".join(out)}
 
 
 FRAGMENTS = {"Progress": gen_progress}
